@@ -334,7 +334,7 @@ theorem validKV_mem {kvs : List (Bytes × J)} (h : validKV kvs = true) :
 
 /-- `pv` decodes every element of the list wherever it stands -/
 def ElemOK (pv : Bytes → Res (V × Bytes)) (sp : Bytes) (x : J) : Prop :=
-  ∀ pre r, wsOk pre = true → Delim r → pv (pre ++ encode sp x ++ r) = .ok (value x, r)
+  ∀ pre r, wsOk pre = true → NumFollow r → pv (pre ++ encode sp x ++ r) = .ok (value x, r)
 
 theorem parseElems_rt (pv : Bytes → Res (V × Bytes)) (sp : Bytes) (hsp : wsOk sp = true) (x : J) (xs : List J)
     (r : Bytes) (lf : Nat) (h : ∀ y ∈ x :: xs, ElemOK pv sp y) (hlf : xs.length < lf) :
@@ -344,7 +344,7 @@ theorem parseElems_rt (pv : Bytes → Res (V × Bytes)) (sp : Bytes) (hsp : wsOk
     cases lf with
     | zero => omega
     | succ lf =>
-      have hx := h x (by simp) sp (sp ++ 0x5d :: r) hsp (delim_sp sp _ hsp (delim_cons _ _ (Or.inr (Or.inr (Or.inl rfl)))))
+      have hx := h x (by simp) sp (sp ++ 0x5d :: r) hsp (delim_sp sp _ hsp (delim_cons _ _ (Or.inr (Or.inr (Or.inl rfl))))).numFollow
       simp only [encodeL, List.append_assoc, List.cons_append, List.nil_append] at hx ⊢
       have hsk : skipWs (sp ++ 0x5d :: r) = 0x5d :: r := skipWs_starter sp 0x5d r hsp (by decide)
       simp [parseElems, hx, hsk, valueL]
@@ -353,7 +353,7 @@ theorem parseElems_rt (pv : Bytes → Res (V × Bytes)) (sp : Bytes) (hsp : wsOk
     | zero => omega
     | succ lf =>
       have hx := h x (by simp) sp (sp ++ 0x2c :: (encodeL sp (y :: ys) ++ r)) hsp
-        (delim_sp sp _ hsp (delim_cons _ _ (Or.inr (Or.inl rfl))))
+        (delim_sp sp _ hsp (delim_cons _ _ (Or.inr (Or.inl rfl)))).numFollow
       have ih' := ih y lf (fun z hz => h z (by simp [hz])) (by simp at hlf; omega)
       simp only [encodeL, List.append_assoc, List.cons_append] at hx ⊢
       have hsk : skipWs (sp ++ 0x2c :: (encodeL sp (y :: ys) ++ r)) = 0x2c :: (encodeL sp (y :: ys) ++ r) :=
@@ -371,7 +371,7 @@ theorem parseMembers_rt (pv : Bytes → Res (V × Bytes)) (sp : Bytes) (hsp : ws
     | zero => omega
     | succ lf =>
       have ⟨hk, hxo⟩ := h (k, x) (by simp)
-      have hx := hxo sp (sp ++ 0x7d :: r) hsp (delim_sp sp _ hsp (delim_cons _ _ (Or.inr (Or.inr (Or.inr rfl)))))
+      have hx := hxo sp (sp ++ 0x7d :: r) hsp (delim_sp sp _ hsp (delim_cons _ _ (Or.inr (Or.inr (Or.inr rfl))))).numFollow
       have hstr := parseStr_rt k (sp ++ 0x3a :: (sp ++ encode sp x ++ (sp ++ 0x7d :: r))) hk
       simp only [encodeKV, encStr, List.append_assoc, List.cons_append, List.nil_append] at hx hstr ⊢
       have hs1 : skipWs (sp ++ 0x22 :: (encStrBody k ++ 0x22 :: (sp ++ 0x3a :: (sp ++ (encode sp x ++ (sp ++ 0x7d :: r))))))
@@ -390,7 +390,7 @@ theorem parseMembers_rt (pv : Bytes → Res (V × Bytes)) (sp : Bytes) (hsp : ws
       have ⟨hk, hxo⟩ := h (k, x) (by simp)
       have ih' := ih q lf (fun z hz => h z (by simp [hz])) (by simp at hlf; omega)
       have hx := hxo sp (sp ++ 0x2c :: (encodeKV sp (q :: qs) ++ r)) hsp
-        (delim_sp sp _ hsp (delim_cons _ _ (Or.inr (Or.inl rfl))))
+        (delim_sp sp _ hsp (delim_cons _ _ (Or.inr (Or.inl rfl)))).numFollow
       have hstr := parseStr_rt k (sp ++ 0x3a :: (sp ++ encode sp x ++ (sp ++ 0x2c :: (encodeKV sp (q :: qs) ++ r)))) hk
       simp only [encodeKV, encStr, List.append_assoc, List.cons_append, List.nil_append] at hx hstr ⊢
       have hs1 : skipWs (sp ++ 0x22 :: (encStrBody k ++ 0x22 :: (sp ++ 0x3a :: (sp ++ (encode sp x ++ (sp ++ 0x2c :: (encodeKV sp (q :: qs) ++ r)))))))
@@ -503,19 +503,19 @@ theorem rt_step (sp : Bytes) (hsp : wsOk sp = true) (f : Nat)
     have hsk : skipWs (pre ++ (encode sp .null ++ r)) = 0x6e :: ([0x75, 0x6c, 0x6c] ++ r) := by
       simp only [encode, List.append_assoc, List.cons_append, List.nil_append]
       exact skipWs_starter pre _ _ hpre (by decide)
-    simp [parseValue, hsk, lit, expectLit_hit, value]
+    simp [parseValue, hsk, lit, expectLit, value]
   | bool b =>
     cases b
     · have hsk : skipWs (pre ++ (encode sp (.bool false) ++ r)) = 0x66 :: ([0x61, 0x6c, 0x73, 0x65] ++ r) := by
         simp only [encode, List.append_assoc, List.cons_append, List.nil_append]
         exact skipWs_starter pre _ _ hpre (by decide)
-      simp [parseValue, hsk, lit, expectLit_hit, value]
+      simp [parseValue, hsk, lit, expectLit, value]
     · have hsk : skipWs (pre ++ (encode sp (.bool true) ++ r)) = 0x74 :: ([0x72, 0x75, 0x65] ++ r) := by
         simp only [encode, List.append_assoc, List.cons_append, List.nil_append]
         exact skipWs_starter pre _ _ hpre (by decide)
-      simp [parseValue, hsk, lit, expectLit_hit, value]
+      simp [parseValue, hsk, lit, expectLit, value]
   | int i =>
-    have hnum := parseNumber_rt i r hr.numFollow
+    have hnum := parseNumber_rt i r hr
     by_cases hneg : i < 0
     · have henc : encInt i = 0x2d :: Bencode.decStr (-i).toNat := by simp [encInt, hneg]
       have hsk : skipWs (pre ++ (encode sp (.int i) ++ r)) = 0x2d :: (Bencode.decStr (-i).toNat ++ r) := by
@@ -561,7 +561,7 @@ theorem rt_step (sp : Bytes) (hsp : wsOk sp = true) (f : Nat)
         exact skipWs_starter sp _ _ hsp hst.1
       have hl' : (encodeL sp (y :: ys)).length < f := by
         simp only [encode, List.length_cons] at hl; omega
-      have hel := parseElems_rt (parseValue f) sp hsp y ys r ((encodeL sp (y :: ys) ++ r).length + 1)
+      have hel := parseElems_rt (parseValue f) sp hsp y ys r ((encodeL sp (y :: ys)).length + r.length + 1)
         (fun z hz => ih z (hmem z hz) (by have := mem_length_encodeL sp (y :: ys) z hz; omega))
         (by have := length_le_encodeL sp (y :: ys); simp at this ⊢; omega)
       rw [← parseElems_skip, hsk2] at hel
@@ -588,7 +588,7 @@ theorem rt_step (sp : Bytes) (hsp : wsOk sp = true) (f : Nat)
         exact skipWs_starter sp _ _ hsp (by decide)
       have hl' : (encodeKV sp (p :: ps)).length < f := by
         simp only [encode, List.length_cons] at hl; omega
-      have hel := parseMembers_rt (parseValue f) sp hsp p ps r ((encodeKV sp (p :: ps) ++ r).length + 1)
+      have hel := parseMembers_rt (parseValue f) sp hsp p ps r ((encodeKV sp (p :: ps)).length + r.length + 1)
         (fun z hz => ⟨(hmem z hz).1, ih z.2 (hmem z hz).2 (by have := mem_length_encodeKV sp (p :: ps) z hz; omega)⟩)
         (by have := length_le_encodeKV sp (p :: ps); simp at this ⊢; omega)
       rw [← parseMembers_skip, hsk2] at hel
@@ -600,5 +600,416 @@ theorem main (sp : Bytes) (hsp : wsOk sp = true) (f : Nat) :
   induction f with
   | zero => intro x _ h; omega
   | succ f ih => exact fun x hv hl => rt_step sp hsp f ih x hv hl
+
+
+/-! ## truncation -/
+
+theorem escByte_length_pos (c : UInt8) : 0 < (escByte c).length := by
+  simp only [escByte]; split <;> (try split) <;> (try split) <;> simp
+
+theorem parseStrBody_partial (f : Nat) (c : UInt8) (j : Nat) (hj : j < (escByte c).length) :
+    parseStrBody (f + 1) ((escByte c).take j) = .err .eof := by
+  by_cases h22 : c = 0x22
+  · subst h22
+    have : j = 0 ∨ j = 1 := by simp [escByte] at hj; omega
+    rcases this with rfl | rfl <;> simp [escByte, parseStrBody]
+  by_cases h5c : c = 0x5c
+  · subst h5c
+    have : j = 0 ∨ j = 1 := by simp [escByte] at hj; omega
+    rcases this with rfl | rfl <;> simp [escByte, parseStrBody]
+  by_cases hlt : c < 0x20
+  · have hl : (escByte c).length = 6 := by simp [escByte, h22, h5c, hlt]
+    have hesc : escByte c = [0x5c, 0x75, 0x30, 0x30, hexDigit (c.toNat / 16), hexDigit (c.toNat % 16)] := by
+      simp [escByte, h22, h5c, hlt]
+    rw [hesc]
+    have : j = 0 ∨ j = 1 ∨ j = 2 ∨ j = 3 ∨ j = 4 ∨ j = 5 := by omega
+    rcases this with rfl | rfl | rfl | rfl | rfl | rfl <;> simp [parseStrBody, getu4]
+  · have hesc : escByte c = [c] := by simp [escByte, h22, h5c, hlt]
+    rw [hesc] at hj ⊢
+    have : j = 0 := by simpa using hj
+    subst this
+    simp [parseStrBody]
+
+theorem parseStrBody_pf (s : Bytes) (j f : Nat) (hj : j ≤ (encStrBody s).length) (hf : j < f) :
+    parseStrBody f ((encStrBody s).take j) = .err .eof := by
+  induction s generalizing j f with
+  | nil =>
+    cases f with
+    | zero => omega
+    | succ f => simp [encStrBody, parseStrBody]
+  | cons c s ih =>
+    cases f with
+    | zero => omega
+    | succ f =>
+      simp only [encStrBody] at hj ⊢
+      by_cases hlt : j < (escByte c).length
+      · rw [take_append_of_lt _ _ _ hlt]
+        exact parseStrBody_partial f c j hlt
+      · have hpos := escByte_length_pos c
+        rw [take_append_of_le _ _ _ (by omega), parseStrBody_step f c,
+          ih (j - (escByte c).length) f (by simp at hj; omega) (by omega)]
+
+theorem parseStr_pf (s : Bytes) (j : Nat) (hj : j ≤ (encStrBody s).length) :
+    parseStr ((encStrBody s).take j) = .err .eof := by
+  unfold parseStr
+  rw [parseStrBody_pf s j _ hj (by simp [List.length_take]; omega)]
+
+theorem parseDigits_all (ds : Bytes) (acc : Nat) (h : ∀ c ∈ ds, Bencode.isDigit c = true) :
+    ∃ n, Bencode.parseDigits ds acc = some n := by
+  induction ds generalizing acc with
+  | nil => exact ⟨acc, rfl⟩
+  | cons d ds ih =>
+    simp only [Bencode.parseDigits, h d (by simp), if_true]
+    exact ih _ (fun c hc => h c (by simp [hc]))
+
+theorem takeDigits_all (ds : Bytes) (h : ∀ c ∈ ds, Json.isDigit c = true) : takeDigits ds = (ds, []) := by
+  simpa using takeDigits_append ds [] h (by intro c t h; cases h)
+
+/-- a strict, non-empty prefix of a number literal is either just `-` (error) or a shorter number -/
+theorem parseNumber_prefix (i : Int) (k : Nat) (hk : k < (encInt i).length) (hk0 : 0 < k) :
+    parseNumber ((encInt i).take k) = .err .eof ∨ ∃ v, parseNumber ((encInt i).take k) = .ok (v, []) := by
+  have key : ∀ (neg : Bool) (n j : Nat), 0 < j → j < (Bencode.decStr n).length →
+      ∃ v, parseNumberBody neg ((Bencode.decStr n).take j) = .ok (v, []) := by
+    intro neg n j hj0 hj
+    obtain ⟨d, ds, hds, hz⟩ := decStr_shape n
+    have hdig : ∀ c ∈ (Bencode.decStr n).take j, Bencode.isDigit c = true :=
+      fun c hc => Proofs.C16.Bencode.decStr_digits n c (List.mem_of_mem_take hc)
+    obtain ⟨m, hm⟩ := parseDigits_all _ 0 hdig
+    have htd := takeDigits_all _ (fun c hc => by rw [isDigit_eq]; exact hdig c hc)
+    obtain ⟨j', rfl⟩ : ∃ j', j = j' + 1 := ⟨j - 1, by omega⟩
+    rw [hds] at hm htd hj ⊢
+    simp only [List.take_succ_cons] at hm htd ⊢
+    have hd0 : ¬ (d = 0x30 ∧ ds.take j' ≠ []) := by
+      rintro ⟨h0, hne⟩
+      have : ds ≠ [] := by intro h; rw [h] at hne; simp at hne
+      exact hz ⟨h0, this⟩
+    refine ⟨.int (if neg then -(m : Int) else m), ?_⟩
+    simp only [parseNumberBody, htd]
+    rw [if_neg hd0]
+    simp [hm]
+  by_cases hneg : i < 0
+  · have henc : encInt i = 0x2d :: Bencode.decStr (-i).toNat := by simp [encInt, hneg]
+    rw [henc] at hk ⊢
+    obtain ⟨k', rfl⟩ : ∃ k', k = k' + 1 := ⟨k - 1, by omega⟩
+    simp only [List.take_succ_cons, parseNumber]
+    by_cases hk' : k' = 0
+    · subst hk'
+      left
+      simp [parseNumberBody, takeDigits]
+    · right
+      exact key true _ k' (by omega) (by simpa using hk)
+  · have henc : encInt i = Bencode.decStr i.toNat := by simp [encInt, hneg]
+    rw [henc] at hk ⊢
+    right
+    obtain ⟨d, ds, hds, _⟩ := decStr_shape i.toNat
+    have hm := decStr_head_ne_minus i.toNat d ds hds
+    obtain ⟨v, hv⟩ := key false i.toNat k hk0 hk
+    refine ⟨v, ?_⟩
+    obtain ⟨k', rfl⟩ : ∃ k', k = k' + 1 := ⟨k - 1, by omega⟩
+    rw [hds] at hv ⊢
+    simp only [List.take_succ_cons] at hv ⊢
+    have hpn : parseNumber (d :: ds.take k') = parseNumberBody false (d :: ds.take k') := by
+      unfold parseNumber
+      split
+      · rename_i heq; simp at heq; exact absurd heq.1 hm
+      · rfl
+    rw [hpn, hv]
+
+
+/-! ### truncation of compact documents (`sp = []`) -/
+
+abbrev enc0 (x : J) : Bytes := encode [] x
+
+/-- a cut inside the element: the parser fails with "unexpected end", or (bare numbers) returns a shorter
+    number and nothing after it -/
+def CutOK (pv : Bytes → Res (V × Bytes)) (x : J) (j : Nat) : Prop :=
+  ∀ k, k < (enc0 x).length → k ≤ j →
+    pv ((enc0 x).take k) = .err .eof ∨ ∃ v, pv ((enc0 x).take k) = .ok (v, [])
+
+def FullOK (pv : Bytes → Res (V × Bytes)) (x : J) : Prop :=
+  ∀ r, NumFollow r → pv (enc0 x ++ r) = .ok (value x, r)
+
+theorem numFollow_nil : NumFollow [] := by intro c t h; cases h
+theorem numFollow_comma (t : Bytes) : NumFollow (0x2c :: t) := (delim_cons _ _ (Or.inr (Or.inl rfl))).numFollow
+theorem numFollow_rbracket (t : Bytes) : NumFollow (0x5d :: t) := (delim_cons _ _ (Or.inr (Or.inr (Or.inl rfl)))).numFollow
+theorem numFollow_rbrace (t : Bytes) : NumFollow (0x7d :: t) := (delim_cons _ _ (Or.inr (Or.inr (Or.inr rfl)))).numFollow
+
+theorem encodeL0_cons (x : J) (xs : List J) :
+    encodeL [] (x :: xs) = enc0 x ++ (match xs with | [] => [0x5d] | y :: ys => 0x2c :: encodeL [] (y :: ys)) := by
+  cases xs <;> simp [encodeL, enc0]
+
+theorem parseElems_pf0 (pv : Bytes → Res (V × Bytes)) (x : J) (xs : List J) (j lf : Nat)
+    (hj : j < (encodeL [] (x :: xs)).length) (hlf : j < lf)
+    (hrt : ∀ y ∈ x :: xs, (enc0 y).length ≤ j → FullOK pv y)
+    (hcut : ∀ y ∈ x :: xs, CutOK pv y j) :
+    parseElems pv lf ((encodeL [] (x :: xs)).take j) = .err .eof := by
+  induction xs generalizing x j lf with
+  | nil =>
+    cases lf with
+    | zero => omega
+    | succ lf =>
+      simp only [encodeL0_cons] at hj ⊢
+      by_cases hlt : j < (enc0 x).length
+      · rw [take_append_of_lt _ _ _ hlt]
+        rcases hcut x (by simp) j hlt (Nat.le_refl j) with h | ⟨v, h⟩ <;> simp [parseElems, h, skipWs]
+      · have hje : j = (enc0 x).length := by simp at hj; omega
+        have hx := hrt x (by simp) (by omega) [] numFollow_nil
+        simp only [List.append_nil] at hx
+        rw [take_append_of_le _ _ _ (by omega), hje]
+        simp only [Nat.sub_self, List.take_zero]
+        simp [parseElems, hx, skipWs]
+  | cons y ys ih =>
+    cases lf with
+    | zero => omega
+    | succ lf =>
+      rw [encodeL0_cons] at hj ⊢
+      simp only at hj ⊢
+      by_cases hlt : j < (enc0 x).length
+      · rw [take_append_of_lt _ _ _ hlt]
+        rcases hcut x (by simp) j hlt (Nat.le_refl j) with h | ⟨v, h⟩ <;> simp [parseElems, h, skipWs]
+      · rw [take_append_of_le _ _ _ (by omega)]
+        by_cases hje : j = (enc0 x).length
+        · have hx := hrt x (by simp) (by omega) [] numFollow_nil
+          simp only [List.append_nil] at hx
+          rw [hje]
+          simp only [Nat.sub_self, List.take_zero]
+          simp [parseElems, hx, skipWs]
+        · obtain ⟨m, hm⟩ : ∃ m, j - (enc0 x).length = m + 1 := ⟨j - (enc0 x).length - 1, by omega⟩
+          have hx := hrt x (by simp) (by omega) (0x2c :: (encodeL [] (y :: ys)).take m) (numFollow_comma _)
+          have ih' := ih y m lf (by simp at hj; omega) (by omega)
+            (fun z hz hl => hrt z (by simp [hz]) (by omega))
+            (fun z hz k hk hkm => hcut z (by simp [hz]) k hk (by omega))
+          rw [hm, List.take_succ_cons]
+          have hsk : skipWs (0x2c :: (encodeL [] (y :: ys)).take m) = 0x2c :: (encodeL [] (y :: ys)).take m :=
+            skipWs_nonws _ _ (by decide)
+          simp [parseElems, hx, hsk, ih']
+
+theorem encodeKV0_cons (k : Bytes) (x : J) (kvs : List (Bytes × J)) :
+    encodeKV [] ((k, x) :: kvs) = 0x22 :: (encStrBody k ++ 0x22 :: 0x3a :: (enc0 x ++
+      (match kvs with | [] => [0x7d] | q :: qs => 0x2c :: encodeKV [] (q :: qs)))) := by
+  cases kvs <;> simp [encodeKV, encStr, enc0]
+
+theorem parseMembers_pf0 (pv : Bytes → Res (V × Bytes)) (p : Bytes × J) (kvs : List (Bytes × J)) (j lf : Nat)
+    (hj : j < (encodeKV [] (p :: kvs)).length) (hlf : j < lf)
+    (hk : ∀ q ∈ p :: kvs, textOk q.1 = true)
+    (hrt : ∀ q ∈ p :: kvs, (enc0 q.2).length ≤ j → FullOK pv q.2)
+    (hcut : ∀ q ∈ p :: kvs, CutOK pv q.2 j) :
+    parseMembers pv lf ((encodeKV [] (p :: kvs)).take j) = .err .eof := by
+  induction kvs generalizing p j lf with
+  | nil =>
+    obtain ⟨k, x⟩ := p
+    cases lf with
+    | zero => omega
+    | succ lf =>
+      rw [encodeKV0_cons] at hj ⊢
+      simp only at hj ⊢
+      cases j with
+      | zero => simp [parseMembers, skipWs]
+      | succ j1 =>
+        rw [List.take_succ_cons]
+        have hq : skipWs (0x22 :: ((encStrBody k ++ 0x22 :: 0x3a :: (enc0 x ++ [0x7d])).take j1))
+            = 0x22 :: ((encStrBody k ++ 0x22 :: 0x3a :: (enc0 x ++ [0x7d])).take j1) := skipWs_nonws _ _ (by decide)
+        simp only [parseMembers, hq]
+        by_cases hin : j1 ≤ (encStrBody k).length
+        · rw [List.take_append_of_le_length hin, parseStr_pf k j1 hin]
+          simp
+        · rw [take_append_of_le _ _ _ (by omega)]
+          obtain ⟨j2, hj2⟩ : ∃ j2, j1 - (encStrBody k).length = j2 + 1 := ⟨j1 - (encStrBody k).length - 1, by omega⟩
+          rw [hj2, List.take_succ_cons, parseStr_rt k _ (hk (k, x) (by simp))]
+          cases j2 with
+          | zero => simp [skipWs]
+          | succ j3 =>
+            rw [List.take_succ_cons]
+            have hc : skipWs (0x3a :: (enc0 x ++ [0x7d]).take j3) = 0x3a :: (enc0 x ++ [0x7d]).take j3 :=
+              skipWs_nonws _ _ (by decide)
+            simp only [hc]
+            have hj3 : j3 ≤ (enc0 x).length := by simp at hj; omega
+            by_cases hlt : j3 < (enc0 x).length
+            · rw [take_append_of_lt _ _ _ hlt]
+              rcases hcut (k, x) (by simp) j3 hlt (by omega) with h | ⟨v, h⟩ <;> simp [h, skipWs]
+            · have hje : j3 = (enc0 x).length := by omega
+              have hx := hrt (k, x) (by simp) (by simp only []; omega) [] numFollow_nil
+              simp only [List.append_nil] at hx
+              rw [take_append_of_le _ _ _ (by omega), hje]
+              simp only [Nat.sub_self, List.take_zero]
+              simp [hx, skipWs]
+  | cons q qs ih =>
+    obtain ⟨k, x⟩ := p
+    cases lf with
+    | zero => omega
+    | succ lf =>
+      rw [encodeKV0_cons] at hj ⊢
+      simp only at hj ⊢
+      cases j with
+      | zero => simp [parseMembers, skipWs]
+      | succ j1 =>
+        rw [List.take_succ_cons]
+        have hq : skipWs (0x22 :: ((encStrBody k ++ 0x22 :: 0x3a :: (enc0 x ++ 0x2c :: encodeKV [] (q :: qs))).take j1))
+            = 0x22 :: ((encStrBody k ++ 0x22 :: 0x3a :: (enc0 x ++ 0x2c :: encodeKV [] (q :: qs))).take j1) :=
+          skipWs_nonws _ _ (by decide)
+        simp only [parseMembers, hq]
+        by_cases hin : j1 ≤ (encStrBody k).length
+        · rw [List.take_append_of_le_length hin, parseStr_pf k j1 hin]
+          simp
+        · rw [take_append_of_le _ _ _ (by omega)]
+          obtain ⟨j2, hj2⟩ : ∃ j2, j1 - (encStrBody k).length = j2 + 1 := ⟨j1 - (encStrBody k).length - 1, by omega⟩
+          rw [hj2, List.take_succ_cons, parseStr_rt k _ (hk (k, x) (by simp))]
+          cases j2 with
+          | zero => simp [skipWs]
+          | succ j3 =>
+            rw [List.take_succ_cons]
+            have hc : skipWs (0x3a :: (enc0 x ++ 0x2c :: encodeKV [] (q :: qs)).take j3)
+                = 0x3a :: (enc0 x ++ 0x2c :: encodeKV [] (q :: qs)).take j3 := skipWs_nonws _ _ (by decide)
+            simp only [hc]
+            by_cases hlt : j3 < (enc0 x).length
+            · rw [take_append_of_lt _ _ _ hlt]
+              rcases hcut (k, x) (by simp) j3 hlt (by omega) with h | ⟨v, h⟩ <;> simp [h, skipWs]
+            · rw [take_append_of_le _ _ _ (by omega)]
+              by_cases hje : j3 = (enc0 x).length
+              · have hx := hrt (k, x) (by simp) (by simp only []; omega) [] numFollow_nil
+                simp only [List.append_nil] at hx
+                rw [hje]
+                simp only [Nat.sub_self, List.take_zero]
+                simp [hx, skipWs]
+              · obtain ⟨m, hm⟩ : ∃ m, j3 - (enc0 x).length = m + 1 := ⟨j3 - (enc0 x).length - 1, by omega⟩
+                have hx := hrt (k, x) (by simp) (by simp only []; omega) (0x2c :: (encodeKV [] (q :: qs)).take m)
+                  (numFollow_comma _)
+                have ih' := ih q m lf (by simp at hj; omega) (by omega)
+                  (fun z hz => hk z (by simp [hz]))
+                  (fun z hz hl => hrt z (by simp [hz]) (by omega))
+                  (fun z hz i hi him => hcut z (by simp [hz]) i hi (by omega))
+                rw [hm, List.take_succ_cons]
+                have hsk : skipWs (0x2c :: (encodeKV [] (q :: qs)).take m) = 0x2c :: (encodeKV [] (q :: qs)).take m :=
+                  skipWs_nonws _ _ (by decide)
+                simp [hx, hsk, ih']
+
+
+/-- truncated compact document: error, or (bare number) a shorter number -/
+def PF0 (f : Nat) (x : J) : Prop :=
+  ∀ k, k < (enc0 x).length → k < f →
+    parseValue f ((enc0 x).take k) = .err .eof ∨
+      (selfDelimiting x = false ∧ ∃ v, parseValue f ((enc0 x).take k) = .ok (v, []))
+
+theorem wsOk_nil : wsOk [] = true := rfl
+
+theorem pf_step0 (f : Nat)
+    (ihrt : ∀ y, valid y = true → (enc0 y).length < f → ElemOK (parseValue f) [] y)
+    (ihpf : ∀ y, valid y = true → PF0 f y) (x : J) (hv : valid x = true) : PF0 (f + 1) x := by
+  intro k hk hkf
+  cases k with
+  | zero => left; simp [parseValue, skipWs]
+  | succ k' =>
+    cases x with
+    | null =>
+      left
+      have hk3 : k' < 3 := by simp [enc0, encode] at hk; omega
+      simp only [enc0, encode, List.take_succ_cons]
+      have := expectLit_prefix [0x75, 0x6c, 0x6c] k' (by simpa using hk3)
+      simp [parseValue, skipWs, isWs, lit, this]
+    | bool b =>
+      left
+      cases b
+      · have hk4 : k' < 4 := by simp [enc0, encode] at hk; omega
+        simp only [enc0, encode, List.take_succ_cons]
+        have := expectLit_prefix [0x61, 0x6c, 0x73, 0x65] k' (by simpa using hk4)
+        simp [parseValue, skipWs, isWs, lit, this]
+      · have hk3 : k' < 3 := by simp [enc0, encode] at hk; omega
+        simp only [enc0, encode, List.take_succ_cons]
+        have := expectLit_prefix [0x72, 0x75, 0x65] k' (by simpa using hk3)
+        simp [parseValue, skipWs, isWs, lit, this]
+    | int i =>
+      have hpre := parseNumber_prefix i (k' + 1) (by simpa [enc0, encode] using hk) (by omega)
+      have hval : parseValue (f + 1) ((enc0 (.int i)).take (k' + 1)) = parseNumber ((encInt i).take (k' + 1)) := by
+        simp only [enc0, encode]
+        by_cases hneg : i < 0
+        · have henc : encInt i = 0x2d :: Bencode.decStr (-i).toNat := by simp [encInt, hneg]
+          rw [henc, List.take_succ_cons]
+          simp [parseValue, skipWs, isWs]
+        · obtain ⟨d, ds, hds, hst, hdig⟩ := decStr_starter i.toNat
+          have henc : encInt i = d :: ds := by simp [encInt, hneg, hds]
+          have ⟨h1, h2, h3, h4, h5, h6⟩ := digit_not_struct d hdig
+          rw [henc, List.take_succ_cons]
+          simp [parseValue, skipWs, hst.1, h1, h2, h3, h4, h5, h6, hdig]
+      rw [hval]
+      rcases hpre with h | ⟨v, h⟩
+      · exact Or.inl h
+      · exact Or.inr ⟨rfl, v, h⟩
+    | str s =>
+      left
+      have hk2 : k' ≤ (encStrBody s).length := by simp [enc0, encode, encStr] at hk; omega
+      simp only [enc0, encode, encStr, List.take_succ_cons, List.take_append_of_le_length hk2]
+      simp [parseValue, skipWs, isWs, parseStr_pf s k' hk2]
+    | arr xs =>
+      left
+      cases xs with
+      | nil =>
+        have : k' = 0 := by simp [enc0, encode] at hk; omega
+        subst this
+        simp [enc0, encode, parseValue, skipWs, isWs]
+      | cons y ys =>
+        simp only [valid] at hv
+        have hmem := validL_mem hv
+        have hk2 : k' < (encodeL [] (y :: ys)).length := by simp [enc0, encode] at hk; omega
+        simp only [enc0, encode, List.take_succ_cons]
+        cases k' with
+        | zero => simp [parseValue, skipWs, isWs]
+        | succ k2 =>
+          obtain ⟨c, t, hct, hst⟩ := encode_starter [] y
+          obtain ⟨tail, htail⟩ := encodeL_shape [] y ys
+          have hE : encodeL [] (y :: ys) = c :: (t ++ tail) := by rw [htail, hct]; simp
+          have hpf := parseElems_pf0 (parseValue f) y ys (k2 + 1) (((encodeL [] (y :: ys)).take (k2 + 1)).length + 1) hk2
+            (by simp [List.length_take]; omega)
+            (fun z hz hl r hr => by
+              have := ihrt z (hmem z hz) (by simp only [enc0] at hl ⊢; omega) [] r wsOk_nil hr
+              simpa using this)
+            (fun z hz i hi hik => by
+              rcases ihpf z (hmem z hz) i hi (by omega) with h | ⟨_, v, h⟩
+              · exact Or.inl h
+              · exact Or.inr ⟨v, h⟩)
+          rw [hE] at hpf ⊢
+          simp only [List.take_succ_cons] at hpf ⊢
+          simp only [List.length_cons, List.length_take, List.length_append] at hpf
+          have hws := hst.1
+          simp only [isWs, Bool.or_eq_false_iff, decide_eq_false_iff_not] at hws
+          simp only [parseValue]
+          simp [skipWs, isWs, hws, hst.2.1, hpf]
+    | obj kvs =>
+      left
+      cases kvs with
+      | nil =>
+        have : k' = 0 := by simp [enc0, encode] at hk; omega
+        subst this
+        simp [enc0, encode, parseValue, skipWs, isWs]
+      | cons p ps =>
+        simp only [valid, Bool.and_eq_true] at hv
+        have hmem := validKV_mem hv.1
+        have hk2 : k' < (encodeKV [] (p :: ps)).length := by simp [enc0, encode] at hk; omega
+        simp only [enc0, encode, List.take_succ_cons]
+        cases k' with
+        | zero => simp [parseValue, skipWs, isWs]
+        | succ k2 =>
+          obtain ⟨tail, htail⟩ := encodeKV_shape [] p ps
+          have hE : encodeKV [] (p :: ps) = 0x22 :: tail := by rw [htail]; simp
+          have hpf := parseMembers_pf0 (parseValue f) p ps (k2 + 1) (((encodeKV [] (p :: ps)).take (k2 + 1)).length + 1) hk2
+            (by simp [List.length_take]; omega)
+            (fun z hz => (hmem z hz).1)
+            (fun z hz hl r hr => by
+              have := ihrt z.2 (hmem z hz).2 (by simp only [enc0] at hl ⊢; omega) [] r wsOk_nil hr
+              simpa using this)
+            (fun z hz i hi hik => by
+              rcases ihpf z.2 (hmem z hz).2 i hi (by omega) with h | ⟨_, v, h⟩
+              · exact Or.inl h
+              · exact Or.inr ⟨v, h⟩)
+          rw [hE] at hpf ⊢
+          simp only [List.take_succ_cons] at hpf ⊢
+          simp only [List.length_cons, List.length_take] at hpf
+          simp only [parseValue]
+          simp [skipWs, isWs, hpf]
+
+theorem main_pf0 (f : Nat) : ∀ x, valid x = true → PF0 f x := by
+  induction f with
+  | zero => intro x _ k _ hk; omega
+  | succ f ih =>
+    exact fun x hv => pf_step0 f (fun y hy hl => main [] wsOk_nil f y hy hl) ih x hv
 
 end Proofs.C16.Json
